@@ -410,6 +410,8 @@ type IterObj struct {
 	str  []rune
 	strS string
 	bpos int
+	symStr []*Term
+	isSym  bool
 }
 
 func (m *Machine) newIter(c Value) Value {
@@ -422,8 +424,11 @@ func (m *Machine) newIter(c Value) Value {
 		}
 		return it
 	case StrVal:
-		if !x.concrete() {
-			panic(abortf("range over symbolic string"))
+		if x.atom != nil {
+			panic(abortf("range over an atom string"))
+		}
+		if x.sym != nil {
+			return &IterObj{symStr: x.sym, isSym: true}
 		}
 		return &IterObj{strS: x.s, str: []rune(x.s)}
 	}
@@ -431,6 +436,18 @@ func (m *Machine) newIter(c Value) Value {
 }
 
 func (m *Machine) iterNext(it *IterObj, x *ssa.Next) Value {
+	if x.IsString && it.isSym {
+		if it.bpos >= len(it.symStr) {
+			return TupleVal{tFalse, mkInt(0), mkInt(0)}
+		}
+		b := it.symStr[it.bpos]
+		if !m.branch(tLt(b, mkInt(128))) {
+			panic(abortf("range over a symbolic string reached a non-ASCII byte (multi-byte runes are outside the model)"))
+		}
+		idx := it.bpos
+		it.bpos++
+		return TupleVal{tTrue, mkInt(int64(idx)), b}
+	}
 	if x.IsString {
 		if it.bpos >= len(it.strS) {
 			return TupleVal{tFalse, mkInt(0), mkInt(0)}
